@@ -897,6 +897,50 @@ def _check_real_wrappers(vs, stats):
     for first in ("model", "model__alpha"):
         cases.append(("SkBaseTransformLearner.set_params:model-and-nested-keys-in-one-call",
                       "learner[set_params(model=Ridge(2), model__alpha=500), %s first]" % first, replace_and_configure(first)))
+    # copy_estimator=True: the copy is independent of the original - no array reachable from `estimator_` (through
+    # attributes, lists, tuples, dicts, nested estimators) shares memory with an array of the original, so that training
+    # or updating one in place (warm starts, partial fits) cannot modify the other
+    def _arrays(obj, depth=0, seen=None):
+        seen = set() if seen is None else seen
+        if id(obj) in seen or depth > 6:
+            return []
+        seen.add(id(obj))
+        if isinstance(obj, numpy.ndarray):
+            return [obj] if obj.size else []
+        if isinstance(obj, (list, tuple)):
+            return [a for o in obj for a in _arrays(o, depth + 1, seen)]
+        if isinstance(obj, dict):
+            return [a for o in obj.values() for a in _arrays(o, depth + 1, seen)]
+        if hasattr(obj, "get_params") and hasattr(obj, "__dict__"):
+            return [a for o in vars(obj).values() for a in _arrays(o, depth + 1, seen)]
+        return []
+
+    def independent_copy(make):
+        def run():
+            from mlinsights.mlmodel.transfer_transformer import TransferTransformer
+            est = make()
+            tt = TransferTransformer(est, copy_estimator=True).fit()
+            shared = [(a.shape, str(a.dtype)) for a in _arrays(est) for b in _arrays(tt.estimator_)
+                      if numpy.shares_memory(a, b)]
+            return numpy.array([[float(len(shared))]]), numpy.array([[0.0]])
+        return run
+    from sklearn.neural_network import MLPRegressor
+
+    class ListModel(LinearRegression):
+        """a model that keeps per-block coefficient arrays in a list and a dict (as scikit-learn's MLP does)"""
+
+        def fit(self, X, y, sample_weight=None):
+            super().fit(X, y)
+            self.blocks_ = [numpy.array(self.coef_, dtype=float), numpy.array([self.intercept_], dtype=float)]
+            self.table_ = {"coef": numpy.array(self.coef_, dtype=float), "nested": (numpy.arange(3.0),)}
+            return self
+    yy_ = 3.0 * yc + X[:, 0]
+    for label, make in (("MLPRegressor", lambda: MLPRegressor(hidden_layer_sizes=(3,), max_iter=30, random_state=0).fit(X, yy_)),
+                        ("model with lists / dicts of arrays", lambda: ListModel().fit(X, yy_)),
+                        ("Ridge", lambda: Ridge().fit(X, yy_))):
+        cases.append(("TransferTransformer.fit:copy-shares-arrays-with-original",
+                      "transfer[copy_estimator=True, %s]: arrays shared between estimator_ and the original" % label,
+                      independent_copy(make)))
     learner_case("learner[OneHotEncoder sparse output]", OneHotEncoder, "transform", X)
     learner_case("learner[MaxAbsScaler on sparse rows]", MaxAbsScaler, "transform", scipy.sparse.csr_matrix(X))
     learner_case("learner[StandardScaler]", StandardScaler, "transform", X)
